@@ -195,16 +195,22 @@ func codecLevel(run *ev.Run, set *bridge.Set, rng *rand.Rand, perType int) {
 					}
 				}
 				// ---- reader side
-				for _, rf := range []string{"json", "ror2", "untyped"} {
+				for _, rf := range []string{"json", "ror2", "untyped", "json+nulls", "untyped+nulls"} {
 					for _, pruned := range []bool{false, true} {
 						src := v
 						if pruned {
 							src = want
 						}
 						tree := refcodec.ToTree(s, t, src)
+						if strings.HasSuffix(rf, "+nulls") {
+							// explicit nulls (absent optional fields and an unknown member spelled as null) denote the same value
+							if !injectNulls(s, t, tree, rng) {
+								continue
+							}
+						}
 						var r restlicodec.Reader
 						var doc string
-						switch rf {
+						switch strings.TrimSuffix(rf, "+nulls") {
 						case "json":
 							doc = refcodec.TreeJSON(tree, rng)
 							r, err = restlicodec.NewJsonReaderWithExcludedFields([]byte(doc), ps, 0)
@@ -300,4 +306,56 @@ func CodecLevel(run *ev.Run, rng *rand.Rand, perType int) {
 		}
 		codecLevel(run, set, rng, perType)
 	}
+}
+
+// injectNulls adds "field": null members for absent optional fields of the records inside tree (and one unknown member
+// with a null value per record); it reports whether it added any.
+func injectNulls(s *corpus.Schema, t corpus.TypeExpr, tree any, rng *rand.Rand) bool {
+	et, td := model.Resolve(s, t)
+	added := false
+	switch x := tree.(type) {
+	case map[string]any:
+		switch {
+		case td != nil && (td.Kind == "record" || td.Kind == "complexkey"):
+			rt := td
+			if td.Kind == "complexkey" {
+				rt = s.Lookup(td.Key)
+			}
+			for _, f := range s.AllFields(rt) {
+				if sub, ok := x[f.Name]; ok {
+					if injectNulls(s, f.Type, sub, rng) {
+						added = true
+					}
+				} else if (f.Optional || f.Default != nil) && rng.Intn(2) == 0 {
+					x[f.Name] = nil
+					added = true
+				}
+			}
+			if rng.Intn(2) == 0 {
+				x["aaNullMember"] = nil // sorts / shuffles in front of most field names
+				added = true
+			}
+		case td != nil && td.Kind == "union":
+			for _, m := range td.Members {
+				if sub, ok := x[m.Alias]; ok && injectNulls(s, m.Type, sub, rng) {
+					added = true
+				}
+			}
+		case et.Map != nil:
+			for _, sub := range x {
+				if injectNulls(s, *et.Map, sub, rng) {
+					added = true
+				}
+			}
+		}
+	case []any:
+		if et.Array != nil {
+			for _, sub := range x {
+				if injectNulls(s, *et.Array, sub, rng) {
+					added = true
+				}
+			}
+		}
+	}
+	return added
 }
